@@ -376,6 +376,28 @@ def run(ctx):
             ctx.case(key=('tall', n, r, rect is None), nontrivial=nsteps > 0 or raw is None)
             if bv is not None:
                 ctx.violation('maxvol:tall' if rect is None else 'maxvol_rect:tall', '%s (n=%d r=%d rect=%s, %d steps)' % (bv, n, r, rect, nsteps), case={'n': n, 'r': r, 'seed': ctx.seed})
+    # --- many swaps in one call (interpolation-type matrices: the LU start is far from dominant): the incrementally updated
+    #     coefficient matrix must still be A A[I]^-1 after dozens of rank-one updates
+    most = 0
+    for t, (n_, r_, kind_) in enumerate([(1000, 40, 'cos'), (1200, 48, 'rbf'), (800, 60, 'cos')] if quick else
+                                        [(1000, 40, 'cos'), (1200, 48, 'rbf'), (800, 60, 'cos'), (1500, 64, 'rbf'), (2000, 50, 'cos'), (600, 200, 'gauss')]):
+        x_ = np.linspace(-1, 1, n_)
+        if kind_ == 'cos':
+            A = np.cos(np.outer(np.arccos(x_), np.arange(r_)))
+        elif kind_ == 'rbf':
+            c_ = np.linspace(-1, 1, r_)
+            A = np.exp(-((x_[:, None] - c_[None, :]) * r_ / 6.) ** 2)
+        else:
+            A = rng.normal(size=(n_, r_))
+        e, k = 1.01, 2000
+        raw, I, B = record(A, e, k, None)
+        bv = blackbox_verdict(A, e, k, None, I, B)
+        nsw_ = sum(1 for x in (raw or []) if x['ev'] == 'mv_swap')
+        most = max(most, nsw_)
+        ctx.case(key=('many-swaps', n_, r_, kind_), nontrivial=nsw_ >= 32 or raw is None)
+        if bv is not None:
+            ctx.violation('maxvol:many-swaps', '%s (%s matrix %dx%d, %d swaps)' % (bv, kind_, n_, r_, nsw_), case={'n': n_, 'r': r_, 'kind': kind_})
+    ctx.notes['largest_number_of_swaps_in_one_call'] = most
     # --- spec -> code: the converged result must be one of the locally optimal sets TLC found
     res = tlc.run('MC_Maxvol', cfg='MC_Maxvol_e.cfg', workers=8, timeout=3000)
     ctx.add_tlc(res, 'locally optimal index sets of all 3x2 matrices with entries {-1,0,1} (emitted)')
